@@ -17,7 +17,7 @@ LITS = ["a", "ab", "|", "a|b", "(", ")", "(a)", "[", "]", "[a]", "[a", "a]", "$"
         "\\\\", "a.b", "x*y", "{2}", "(?P<n>", "a b"]
 OBJS = ["AnyLetter()", "AnyDigit()", "AnyFrom('a', 'b')", "AnyButFrom('a')", "Any()", "Newline()", "Backslash()",
         "WordBoundary()", "NonWordBoundary()", "AnyWhitespace()", "AnyWordChar()", "AnyBetween('a', 'c')", "Dollar()",
-        "AnyButDigit()", "Space()"]
+        "AnyButDigit()", "Space()", "AnyFrom('a', '\\\\')", "AnyFrom('(', '\\\\')", "AnyFrom(']', '[', '|')"]
 CORE_LITS = ["a", "ab", "|", "[", "a$", "^a", "a?", "\\", "(a)", "a\nb", "a|b", "]", "US$", "{2}"]
 CORE_OBJS = ["AnyLetter()", "AnyFrom('a', 'b')", "Any()", "Newline()", "WordBoundary()", "Backslash()", "AnyButFrom('a')"]
 
@@ -35,6 +35,8 @@ def composites():
         ("fb", a, [b]), ("nfb", a, [b]), ("pb", a, [b]), ("npb", a, [b]), ("eb", a, [b]), ("neb", a, [b]),
         ("enclose", a, [b]), ("concat", [O("WordBoundary()"), a]), ("concat", [a, O("WordBoundary()")]),
         ("either", [("opt", a, True), b]), ("concat", [("either", [a, b]), c]),
+        ("either", [O("AnyFrom('c', '\\\\')"), O("AnyFrom('0', '5')")]), ("either", [O("AnyFrom('0', '5')"), O("AnyFrom('\\\\', 'c')")]),
+        ("concat", [O("AnyFrom('\\\\', ')')"), O("AnyFrom('(', 'x')")]),
     ]
 
 
@@ -118,8 +120,8 @@ def dedupe(ps):
     return out
 
 
-def task_prog(e, Lmax):
-    return progs.check_program(e, Lmax, mode="C02")
+def task_prog(e, Lmax, outcomes=None):
+    return progs.check_program(e, Lmax, mode="C02", outcomes=outcomes)
 
 
 # ---- known findings (regions are predicates over the failing program / emitted text) -------------
@@ -146,7 +148,9 @@ def run(tier):
     else:
         Lmax = 6
     allp = dedupe(d1 + d2 + d3 + t3)
-    tasks = [("task_prog", (e, Lmax)) for e in allp]
+    so = progs.with_seed_outcomes(allp, list(range(4)) if tier == "quick" else list(range(12)))
+    run.info = {"programs_evaluated_under_several_hash_seeds": len(so)}
+    tasks = [("task_prog", (e, Lmax, so.get(i))) for i, e in enumerate(allp)]
     run.add(common.run_tasks(__name__, tasks, progress=1000))
     run.triage(REGIONS)
     run.bounds = {"programs": "%d expression trees (depth 1 exhaustive over %d leaves + %d composites; depth 2%s; 3-operand forms)" %
